@@ -19,6 +19,10 @@ pub struct Tape {
 
 static TAPE: Mutex<Option<Tape>> = Mutex::new(None);
 
+/// Choices recorded per run at most (the longest legitimate runs - a filled stream-id
+/// space - use a few hundred thousand).
+pub const TAPE_CAP: usize = 3_000_000;
+
 pub fn install_generate(seed: u64) {
     *TAPE.lock().unwrap() = Some(Tape {
         rng: Some(Rng::new(seed)),
@@ -58,6 +62,13 @@ pub fn choose(_site: &'static str, n: u64) -> u64 {
     }
     let mut guard = TAPE.lock().unwrap();
     let tape = guard.as_mut().expect("tape not installed");
+    if tape.pos >= TAPE_CAP {
+        // A run that never ends (e.g. a request repeated forever) must not grow the
+        // tape without bound: past the cap every choice is the boring one, in
+        // generation and in replay alike, and nothing more is recorded.
+        tape.pos += 1;
+        return 0;
+    }
     let v = if let Some(rng) = tape.rng.as_mut() {
         rng.below(n)
     } else {
